@@ -130,6 +130,9 @@ pub(crate) mod kit {
     use super::*;
     use sm::proofs::any_sm_state as any_sm_state_full;
 
+    static PROBE_TARGET: std::sync::atomic::AtomicPtr<()> = std::sync::atomic::AtomicPtr::new(std::ptr::null_mut());
+    fn pending_probe<C: UniModel<N, M>, const N: usize, const M: usize>() -> u32 { unsafe { &*(PROBE_TARGET.load(std::sync::atomic::Ordering::Relaxed) as *const C) }.pending() }
+
     /// the manager start state used by the kit for channel `C` (see `UniModel::SYMBOLIC_MANAGER`)
     fn sm_state_for<const M: usize>(symbolic: bool) -> sm::SmState<M> {
         if symbolic { any_sm_state_full::<M>() } else {
@@ -213,10 +216,14 @@ pub(crate) mod kit {
         let ch = leak_static(&arc);
         let before = sm::total_wakes(M);
         let calls = static_cell();
+        PROBE_TARGET.store(ch as *const C as *mut (), std::sync::atomic::Ordering::Relaxed);
+        unsafe { sm::PENDING_PROBE = Some(pending_probe::<C, N, M>); }
         let out = drive::<C, C::Derived>(ch, entry, kani::any(), calls);
+        unsafe { sm::PENDING_PROBE = None; }
         assert!(out == Outcome::Accepted,                                    "empty channel: the event is accepted");
         assert!(ch.pending_items_count() == 1,                               "one event pending");
         assert!(sm::total_wakes(M) >= before + 1,                            "empty -> non-empty with every created stream parked: at least one LIVE stream is woken (else the event is stuck)");
+        assert!(sm::PENDING_AT_LAST_WAKE.load(std::sync::atomic::Ordering::Relaxed) == 1, "the wake-up is issued AFTER the event became visible to consumers (a stream woken earlier would poll, find nothing and park for good)");
         kani::cover!(true, "end of harness reachable (vacuity guard)");
     }
 
